@@ -8,6 +8,7 @@ import Dhlldv.Spec.Pipeline
 import Dhlldv.Spec.Fracs
 import Dhlldv.Spec.Workbook
 import Dhlldv.Spec.FileName
+import Dhlldv.Spec.Pump
 import Dhlldv.Gen.Effects
 
 /-! Line-protocol dispatcher over the hand-written Spec models. -/
@@ -54,6 +55,32 @@ def unhexBytes (s : String) : ByteArray :=
 def hexOfString (s : String) : String :=
   let digit := fun (n : Nat) => Char.ofNat (if n < 10 then 48 + n else 87 + n)
   String.ofList (s.toUTF8.toList.flatMap fun b => [digit (b.toNat / 16), digit (b.toNat % 16)])
+
+/-- parse `<exLow> <exHigh> <n> k1 v1 … kn vn` into a table; returns the table and the unread tokens -/
+def parseTable (ts : List String) : Option (InterpTable Float × List String) :=
+  match ts with
+  | lo :: hi :: n :: rest =>
+    let n := n.toNat!
+    if rest.length < 2 * n then none else
+    let pts := (List.range n).map fun i => (Gen.fOfBits (rest.getD (2 * i) "0"), Gen.fOfBits (rest.getD (2 * i + 1) "0"))
+    some ({ pts := pts, exLow := Gen.bOf lo, exHigh := Gen.bOf hi, tol := 0.001 }, rest.drop (2 * n))
+  | _ => none
+
+def mkPump (f : Nat → Float) (mode : Nat) (qh qp drv : InterpTable Float) : Spec.Pump.P Float where
+  designSpeed := f 0
+  designImpeller := f 1
+  curSpeed := f 2
+  curImpeller := f 3
+  maxDriverSpeed := f 4
+  availPower := f 5
+  gearRatio := f 6
+  qpMax := f 7
+  rhom := f 8
+  rhol := f 9
+  mode := mode
+  QH := qh
+  QP := qp
+  driver := drv
 
 def extractedReqs : List Spec.Workbook.Req :=
   Effects.excelRequireds.map fun r => { type := r.1, required := r.2.1, scalars := r.2.2.1, tables := r.2.2.2 }
@@ -210,6 +237,23 @@ def dispatch (op : String) (a : Array String) : Option String :=
     let req := if a[0]! == "-" then "" else String.fromUTF8! (unhexBytes a[0]!)
     let repl := Effects.filenameReplace.flatMap fun s => s.toList
     some ("h" ++ hexOfString (Spec.FileName.baseName repl Effects.filenameValid.toList req))
+  | "spec.pump" =>
+    -- spec.pump designSpeed designImpeller curSpeed curImpeller maxDriverSpeed availPower gearRatio qpMax rhom rhol  <mode> <fuel> curveSpeed Q <water>  QH QP driver
+    if a.size < 15 then none else
+    let f := fun i => Gen.fOfBits a[i]!
+    match parseTable (a.toList.drop 15) with
+    | none => none
+    | some (qh, r1) =>
+      match parseTable r1 with
+      | none => none
+      | some (qp, r2) =>
+        match parseTable r2 with
+        | none => none
+        | some (drv, _) =>
+          let p : Spec.Pump.P Float := mkPump f (a[10]!).toNat! qh qp drv
+          some (match Spec.Pump.point p (a[11]!).toNat! (f 12) (f 13) (Gen.bOf a[14]!) with
+            | none => "none"
+            | some (q, h, pw, n) => " ".intercalate ([q, h, pw, n].map Gen.bitsOf))
   | _ => none
 
 end Spec
